@@ -465,9 +465,31 @@ def unary_ops(tier):
     protos = (2, pickle.HIGHEST_PROTOCOL) if tier == "quick" else tuple(
         range(pickle.HIGHEST_PROTOCOL + 1))
     ops = ["hash", "copy", "deepcopy", "ident", "cident", "str", "repr", "setattr", "dictput",
-           "dictget"]
+           "dictget", *HELPER_OPS]
     ops += [f"pickle{p_}" for p_ in protos]
     return ops
+
+
+# library helpers that are handed an expression and must leave it as it is
+HELPER_OPS = ("wrapcse", "mkcse", "tagcse", "subst", "deps", "flatsum")
+
+
+def run_helper(kind, o):
+    import pymbolic.primitives as p
+    if kind == "wrapcse":
+        return p.wrap_in_cse(o, "tmp")
+    if kind == "mkcse":
+        return p.make_common_subexpression(o, "tmp")
+    if kind == "tagcse":
+        from pymbolic.cse import tag_common_subexpressions
+        return tag_common_subexpressions([o, p.Sum((o, 1)), p.Product((o, o))])
+    if kind == "subst":
+        from pymbolic import substitute
+        return substitute(o, {"zz": 1, "x": p.Variable("q")})
+    if kind == "deps":
+        from pymbolic.mapper.dependency import DependencyMapper
+        return DependencyMapper(include_cses=True)(o)
+    return p.flattened_sum([o, 1, o])
 
 
 def run_history(fam_specs, hist):
@@ -513,6 +535,16 @@ def run_history(fam_specs, hist):
                 derived.append((IdentityMapper()(o), i, kind))
             elif kind == "cident":
                 derived.append((CachedIdentityMapper()(o), i, kind))
+            elif kind in HELPER_OPS:
+                try:
+                    run_helper(kind, o)
+                except RecursionError:
+                    raise
+                except Exception:  # noqa: BLE001
+                    pass            # not every object is a valid input of every helper
+                if to_spec(o) != specs[i]:
+                    return ("mutated", f"{kind} changed the fields of object {i}: now "
+                            f"{show(to_spec(o))}, was {show(specs[i])}"), None
             elif kind == "str":
                 str(o)
             elif kind == "repr":
@@ -589,7 +621,9 @@ class C01(Check):
             "pairwise agreement), and set/del of every field of every pool object. Engine B: per "
             "family (base, clone, first variant(s)) all histories over {hash, ==, copy, deepcopy, "
             "pickle (protocols 2,5 / all), identity mapping, cached identity mapping, str, repr, "
-            "dict insert / look-up, setattr attempt} up to depth 2 (thorough: depth 3 for the "
+            "dict insert / look-up, setattr attempt, and six library helpers that are handed the "
+            "object (wrap_in_cse, make_common_subexpression, tag_common_subexpressions, substitute, "
+            "dependency analysis, flattened_sum)} up to depth 2 (thorough: depth 3 for the "
             "built-in classes, four objects for the user classes), with "
             "the complete equality/hash matrix of all live and derived objects after every "
             "history. Everything under the default mode and under python -O. Non-trivial = pairs "
